@@ -31,7 +31,7 @@ fn decode_policies() -> Vec<(&'static str, Policy)> {
 fn sig(dir: &str, feat: Option<Feat>, enc: Enc, ty: &Ty) -> String {
     match feat {
         Some(f) => format!("C10:{dir}:{}", f.name()),
-        None => format!("C10:{dir}:{}:{}", enc.vname(), generic_shape(ty)),
+        None => format!("C10:{dir}:{}:{}", enc.vname(), ty.tag()),
     }
 }
 
